@@ -87,7 +87,7 @@ func runC13(r *vf.Run) {
 				r.Inconclusive(sid + ": " + err.Error())
 				continue
 			}
-			c13Batches(r, sid, sp, rng, pool, r.Pick(60, 300))
+			c13Batches(r, sid, sp, rng, pool, r.Pick(60, 300), ds.Rows, ds.Cols)
 			c13Driver(r, sid, sp, rng, ds, copyPath, r.Pick(25, 100))
 			alive := sp.alive()
 			_, log := sp.stop()
@@ -138,7 +138,13 @@ func c13Pool(rng *rand.Rand, ds *gen.Dataset, n int) []c04Query {
 		if !validUTF8Expr(e) {
 			continue
 		}
-		out = append(out, c04Query{E: e, GB: gb, Want: oracle.Eval(ds.Rows, ds.Cols, e, gb)})
+		q := c04Query{E: e, GB: gb, Want: oracle.Eval(ds.Rows, ds.Cols, e, gb)}
+		if rng.Intn(12) == 0 {
+			// a structurally incomplete member (an operand without expression): invalid as a whole
+			q.Hole = true
+			q.Want = oracle.Answer{Err: true}
+		}
+		out = append(out, q)
 	}
 	return out
 }
@@ -155,7 +161,7 @@ func validUTF8Expr(e *oracle.Expr) bool {
 	return true
 }
 
-func c13Batches(r *vf.Run, sid string, sp *serverProc, rng *rand.Rand, pool []c04Query, n int) {
+func c13Batches(r *vf.Run, sid string, sp *serverProc, rng *rand.Rand, pool []c04Query, n int, dsRows []oracle.Row, dsCols map[string]bool) {
 	conn, cl, err := dial(sp.addr)
 	if err != nil {
 		r.Inconclusive(sid + ": dial: " + err.Error())
@@ -182,6 +188,18 @@ func c13Batches(r *vf.Run, sid string, sp *serverProc, rng *rand.Rand, pool []c0
 		var qs []c04Query
 		for i := 0; i < size; i++ {
 			qs = append(qs, valid[rng.Intn(len(valid))])
+		}
+		if b%4 == 2 && size >= 2 {
+			// the same expression several times with different group-by lists (and once more identically)
+			base := qs[0]
+			for i := 1; i < size && i < 5; i++ {
+				other := valid[rng.Intn(len(valid))]
+				qs[i] = c04Query{E: base.E, GB: other.GB, Want: oracle.Eval(dsRows, dsCols, base.E, other.GB)}
+			}
+			if size > 5 {
+				qs[5] = base
+			}
+			r.Count("batches_same_expression_different_group_by", 1)
 		}
 		badPos := -1
 		if size > 0 && len(invalid) > 0 && b%3 == 1 {
@@ -222,7 +240,7 @@ func c13Batches(r *vf.Run, sid string, sp *serverProc, rng *rand.Rand, pool []c0
 		}
 		req := &pb.QueryRequest{}
 		for i, q := range qs {
-			req.Queries = append(req.Queries, &pb.Query{Id: ids[i], Expr: q.E.ToProto(), GroupBy: q.GB})
+			req.Queries = append(req.Queries, &pb.Query{Id: ids[i], Expr: q.proto(), GroupBy: q.GB})
 		}
 		ctx, cancel := context.WithTimeout(context.Background(), 120*time.Second)
 		resp, err := cl.Query(ctx, req)
@@ -425,6 +443,91 @@ func c13Conversions(r *vf.Run) {
 		}
 		r.Count("conversion_round_trips", 1)
 	}
+	// incomplete (but wire-reachable) trees: the conversion must keep their structure, holes included
+	cols := []string{"a", "b"}
+	for i := 0; i < n; i++ {
+		id := fmt.Sprintf("convert/holes%d", i)
+		if !r.Want(id) {
+			continue
+		}
+		pe := randomPBExpr(rng, cols, 0)
+		req, _, ok := wireReachable(&pb.QueryRequest{Queries: []*pb.Query{{Expr: pe}}})
+		if !ok {
+			continue
+		}
+		q := req.Queries[0]
+		var lq *updog.Query
+		r.Eval(1)
+		if p, msg, _ := vf.Try(func() { lq = convert.ToQuery(q) }); p {
+			r.Violation(id, "ToQuery-panic", map[string]any{"message": head(q.String(), 1500), "panic": msg})
+			continue
+		}
+		want, got := shapeOfProto(q.Expr), shapeOfLib(lq.Expr)
+		if want != got {
+			r.Violation(id, "ToQuery-lossy", map[string]any{"message": head(q.String(), 1500), "shape_of_message": want, "shape_after_conversion": got})
+		}
+		r.Count("conversion_round_trips_with_holes", 1)
+	}
+}
+
+// shapeOfProto / shapeOfLib render the structure of a possibly incomplete tree; a missing expression is "?".
+func shapeOfProto(e *pb.Query_Expression) string {
+	if e == nil {
+		return "?"
+	}
+	switch v := e.Value.(type) {
+	case *pb.Query_Expression_Eq:
+		return fmt.Sprintf("eq(%q,%q)", v.Eq.GetColumn(), v.Eq.GetValue())
+	case *pb.Query_Expression_Not_:
+		return "not(" + shapeOfProto(v.Not.GetExpr()) + ")"
+	case *pb.Query_Expression_And_:
+		s := "and("
+		for _, k := range v.And.GetExprs() {
+			s += shapeOfProto(k) + ","
+		}
+		return s + ")"
+	case *pb.Query_Expression_Or_:
+		s := "or("
+		for _, k := range v.Or.GetExprs() {
+			s += shapeOfProto(k) + ","
+		}
+		return s + ")"
+	}
+	return "?"
+}
+
+func shapeOfLib(e updog.Expression) string {
+	switch v := e.(type) {
+	case *updog.ExprEqual:
+		if v == nil {
+			return "?"
+		}
+		return fmt.Sprintf("eq(%q,%q)", v.Column, v.Value)
+	case *updog.ExprNot:
+		if v == nil {
+			return "?"
+		}
+		return "not(" + shapeOfLib(v.Expr) + ")"
+	case *updog.ExprAnd:
+		if v == nil {
+			return "?"
+		}
+		s := "and("
+		for _, k := range v.Exprs {
+			s += shapeOfLib(k) + ","
+		}
+		return s + ")"
+	case *updog.ExprOr:
+		if v == nil {
+			return "?"
+		}
+		s := "or("
+		for _, k := range v.Exprs {
+			s += shapeOfLib(k) + ","
+		}
+		return s + ")"
+	}
+	return "?"
 }
 
 // c13UTF8Finding is the recogniser of the known finding: a group value that is
